@@ -191,7 +191,7 @@ def arr_index(I, st, a: Arr, idx, base=None, node=None, check=False):
 
 
 def _slice_bounds(I, st, sl: ast.Slice, n):
-    if sl.step is not None:
+    if sl.step is not None and I.concrete_int(I.eval(sl.step, st)) != 1:
         raise Unsupported("slice step")
     lo = I.eval(sl.lower, st) if sl.lower is not None else 0
     hi = I.eval(sl.upper, st) if sl.upper is not None else n
